@@ -120,3 +120,4 @@ def run(ctx):
                bool(rng) and '.ValueTable.filled' in fl, 'range derives from %s' % sorted(f for f in fl if 'ValueTable' in f))
     # 5. a counted operation lands on the key it names
     shared.index_hit_verified_against_key(ctx, '5')
+    shared.one_salt_per_handle(ctx, '6')
